@@ -1,6 +1,9 @@
 package main
 
-import "regexp"
+import (
+	"regexp"
+	"time"
+)
 
 func init() {
 	props = append(props, prop{
@@ -11,9 +14,10 @@ func init() {
 			"K0 is measured on fresh pools of the same build, so the capacity clause is relative to what this tree's fresh pool can do",
 		}, commonAssumptions...),
 		Phases: []phase{
-			{Name: "main", Pkg: "./workers/c19", QuickShards: 8, ThorShards: 14},
-			{Name: "race", Pkg: "./workers/c19", Race: true, QuickShards: 4, ThorShards: 8},
+			{Name: "main", Pkg: "./workers/c19", QuickShards: 12, ThorShards: 14, QuickTO: 4 * time.Minute},
+			{Name: "race", Pkg: "./workers/c19", Race: true, QuickShards: 6, ThorShards: 8, QuickTO: 4 * time.Minute},
 		},
-		RaceFuncs: regexp.MustCompile(`^nbio/(taskpool\.\(\*TaskPool\)\.(fork|Go|Call|Stop)|taskpool\.\(\*IOTaskPool\)\.(Go|Call)|timer\.\(\*Timer\)\.Async)$`),
+		// the optional prefixes cover inlining (e.g. taskpool.(*TaskPool).Go.(*TaskPool).fork.func1)
+		RaceFuncs: regexp.MustCompile(`^nbio/(taskpool\.(.+\.)?\(\*TaskPool\)\.(fork|Go|Call|Stop)|taskpool\.(.+\.)?\(\*IOTaskPool\)\.(Go|Call)|timer\.(.+\.)?\(\*Timer\)\.Async)$`),
 	})
 }
